@@ -44,8 +44,8 @@ CHECKS = {
             "NOT decided: covert encodings inside opaque strings (a secret placed into Witness or Quote by wallet code is not tracked: no information-flow analysis), the websocket client, HTTP headers/URLs. Assumed: encoding/json emits exactly the exported fields of the value it is given.",
             "DESIGN.md §8 C08"),
     "C09": (True,
-            "GenerateKeyset proved to produce, for all (master, index): the 60 keys at amounts 2^0..2^59 as the children H+0..H+59 of m/0'/0'/index' (private scalar and public point), with the given fee/active flag - the keyset is a function of seed and index; keyset id shape proved (\"00\" + 14 hex chars of a 32-byte digest), sorted concatenation bounded (bounded/keysetid); RotateKeyset: representation invariant (one active keyset, filed under its id) preserved, old keysets keep keys, fee and id, the stored row carries exactly (new id, old index + 1, requested fee, active), the old row is only deactivated; signBlindedMessages signs only under the active keyset id and refuses others; verifyProofs takes the key from the proof's own keyset; TransactionFees charges each proof its own keyset's fee (spec sum).",
-            "Assumed: BIP32 derivation (hdkeychain) as an uninterpreted pure function, A-FLOAT (math.Pow(2, i) exact for i < 64). Bounded: sorted concatenation in DeriveKeysetId. Known finding (open): RotateKeyset crash window (C07). LoadMint's reconstruction loop is not under a functional contract.",
+            "GenerateKeyset proved to produce, for all (master, index): the 60 keys at amounts 2^0..2^59 as the children H+0..H+59 of m/0'/0'/index' (private scalar and public point), with the given fee/active flag - the keyset is a function of seed and index; keyset id shape proved (\"00\" + 14 hex chars of a 32-byte digest), sorted concatenation bounded (bounded/keysetid); RotateKeyset: representation invariant (one active keyset, filed under its id) preserved, old keysets keep keys, fee and id, the stored row carries exactly (new id, old index + 1, requested fee, active), the old row is only deactivated; LOADMINT (restart, round 4): every stored keyset row is regenerated from the STORED seed (hd.master(db.seed)) with the row's own derivation index, fee and active flag (call-site clauses on crypto.GenerateKeyset inside the reconstruction loop); a first start generates index 0 with the configured fee and stores exactly that row as the active one; without config.RotateKeyset the loaded mint satisfies the representation invariant (exactly one active keyset, the one of the active row; every stored keyset filed under its own id with the row's fee, index and flag) and the store invariant is re-established; the info setter and the rotation write nothing else of the Mint (frame postconditions); signBlindedMessages signs only under the active keyset id and refuses others; verifyProofs takes the key from the proof's own keyset; TransactionFees charges each proof its own keyset's fee (spec sum).",
+            "Assumed: BIP32 derivation (hdkeychain) as an uninterpreted pure function, A-FLOAT (math.Pow(2, i) exact for i < 64). Bounded: sorted concatenation in DeriveKeysetId. Known finding (open): RotateKeyset crash window (C07). LoadMint relies on the store invariant dbkinv at start (every row keyed by its own id, id = id generated from (stored seed, row index), representable fee, exactly one active row when there are rows) - the invariant LoadMint's first start and RotateKeyset's stored row establish (RotateKeyset's crash window is the open finding that breaks it); A-KSID: the generated keyset id is a function of (master, index) (assumed clause of GenerateKeyset, follows from the proved @keys and the assumed ksid); with config.RotateKeyset the invariant after loading is RotateKeyset's own conditional postcondition.",
             "DESIGN.md §8 C09"),
     "C10": (True,
             "Over an abstract prime-order group (commutative group + module laws): BlindMessage = Y + rG with Y = h2c(secret), SignBlindedMessage = k*B', UnblindSignature = C' - rK, Verify <=> C = k*h2c(secret) proved from the secp256k1 calls the real functions make; lemmas (discharged every run): unblinding k(Y+rG) with K=kG gives kY for every r (bdhke.unblind), a different key gives a different point on a non-identity Y (bdhke.otherkey), DLEQ: R1 = sG - eA = pG and R2 = sB' - eC' = pB' for s = p + ek (dleq.r1/r2), completeness of the proof GenerateDLEQ makes (dleq.complete) also through the hex transport of (e,s) (dleq.complete.wire), re-blinding C + rA = k(Y + rG) (dleq.reblind). HashE proved = sha256 of the concatenated hex uncompressed points (loop invariant); GenerateDLEQ proved to return e = H(pG, pB', aG, C'), s = p + e*a for its nonce p; VerifyDLEQ proved <=> e = H(sG - eA, sB' - eC', A, C'); nut12.VerifyBlindSignatureDLEQ proved <=> everything parses and that equation holds on the parsed values; VerifyProofDLEQ re-blinds with r exactly as specified (call-site clause) and refuses proofs without r; VerifyProofsDLEQ: every proof with DLEQ verified under the key of its own amount (missing key = failure). Mint: signBlindedMessages proved to emit, for every output, C_ = hex(k*B') under the active key of the output's amount and (e,s) = hex of the GenerateDLEQ proof for exactly (k, B', C_). Wallet: constructProofs proved to verify every DLEQ against the keyset key of the signature's amount, the B_ it sent and the C_ it got, to keep (e,s) unchanged and add its own r, and to unblind with the same key and r.",
